@@ -202,6 +202,10 @@ class Core(object):
                 self.clock.advance_to(t)
                 avail = sim.wire_available(numbytes)
         if avail == 0:
+            if self.stall == "poll" and timeout == 0:
+                # a non-blocking poll (timeout 0) of an idle link returns no bytes instead of raising; reads that are willing to wait behave as usual
+                self.empty_reads += 1
+                return b""
             if self.stall == "eof":
                 self.empty_reads += 1
                 self.clock.advance(STALL_READ_DT)
